@@ -15,8 +15,8 @@ import (
 
 type c02logger struct {
 	Name    string   `json:"name"`
-	Entries []string `json:"entries"` // tag list entries as meant (trimmed)
-	Raw     string   `json:"raw"`     // as written in the configuration
+	Entries []string `json:"entries"`                    // tag list entries as meant (trimmed)
+	Raw     string   `json:"raw"`                        // as written in the configuration
 	Mem     bool     `json:"user_logger_kind,omitempty"` // a user-written logger kind (VMem) that reports a decorated name
 }
 
@@ -120,7 +120,14 @@ func c02gen(r *rand.Rand, universe []string) *c02case {
 			case x < 6:
 				e = "zz_unregistered_" + fmt.Sprint(r.IntN(5))
 			default:
-				e = prefs[r.IntN(len(prefs))] + "_*"
+				p := prefs[r.IntN(len(prefs))]
+				e = p + "_*"
+				if r.IntN(7) == 0 {
+					// oddly spelled entries that contain '*' and end in "_*" are accepted by the stated rule; none of them is
+					// "P_*" for a proper underscore-delimited prefix P of any valid tag, so they serve nothing - in particular
+					// they are not another spelling of p_*
+					e = []string{p + "__*", p + "_*_*", p + "*_*", "_*", "*_*", p + "_*__*", p + "_**_*", "_" + p + "_*"}[r.IntN(8)]
+				}
 			}
 			if !used[e] {
 				return e
@@ -547,7 +554,7 @@ func init() {
 		Rule: "each worker registers a seeded universe of 80 valid tags (names beginning with _app_/_rpc_ through the helper API with multi-word parts; 1-4 segments over a 12-segment pool incl. one-character segments and 8-12 character ones (names and wildcard prefixes up to the 36-byte limit), with/without leading underscore, heavy prefix sharing) + the 2 built-in ones; cases: 1-4 sync loggers + optional root, each with a private recording appender (one in five loggers is of a user-written kind that records by itself and reports a decorated name); tag lists mix registered literals, unregistered literals, wildcards P_* for every proper prefix P in the universe and for whole registered tags, " +
 			"blanks/empty entries/repeated entries, random key spelling; 1/3 of the cases carry one of the four stated errors (duplicate tag string across loggers, root with tags, logger without tags in 6 spellings, malformed wildcard in 8 shapes). Each map is Refreshed 3x (Destroy between; Go randomises map iteration each time) and one event per registered tag is routed. " +
 			"Oracle: literal owner, else longest proper underscore-delimited prefix wildcard, else root/console; exactly one sink per event. One further worker registers 70000 (thorough 300000) tags in four name classes and routes one event per tag. Non-trivial/distinct = distinct (error class | #loggers, #wildcards, nested wildcards present, root configured) classes among cases that matched.",
-		Assumptions: []string{"the bare wildcard '_*' (empty prefix) and wildcards with a second '*' that still end in '_*' are not generated"},
+		Assumptions: []string{"oddly spelled wildcard entries that still end in '_*' (doubled underscore, a second '*', the bare '_*') are accepted and serve no tag: none is P_* for a proper underscore-delimited prefix P of a valid tag"},
 		Run: func(d *D) {
 			var specs []Spec
 			for i := 0; i < 16; i++ {
